@@ -733,3 +733,34 @@ Definition forms_exempt : list string := (rv_name :: not_modelled)%list.
 Definition names_of (n : string) : list string := match assoc documented_args n with Some l => l | None => [] end.
 Definition forms_row (nf : string * list form) : bool :=
   mem (fst nf) forms_exempt || forms_agree all_contracts delegation forms_b0 (fst nf) (names_of (fst nf)) (snd nf).
+
+(* ALL-SHAPES strictness: a callable is covered when it has no delegation row, its own golden contract is in the normal
+   form M_shape.nf_ok, and the canonical forms computed symbolically from the contract (forms_of_contract) are, as a
+   set, the canonical forms of its documented forms. *)
+Definition forms_ext : list string := map fst forms_b0.
+Definition has_delegates (name : string) : bool :=
+  match assoc delegation name with Some (_ :: _) => true | _ => false end.
+Definition cdim_eq_dec (x y : cdim) : {x = y} + {x <> y}.
+Proof. decide equality; try apply PeanoNat.Nat.eq_dec; apply string_dec. Defined.
+Definition cshape_eq_dec (x y : cshape) : {x = y} + {x <> y}.
+Proof. decide equality. apply (list_eq_dec cdim_eq_dec). Defined.
+Definition cform_eq_dec : forall x y : cform, {x = y} + {x <> y}.
+Proof. apply list_eq_dec. intros [a s] [a' s']. destruct (string_dec a a') as [->|H]; [|right; congruence].
+  destruct (cshape_eq_dec s s') as [->|H]; [left; reflexivity|right; congruence]. Defined.
+Definition cform_mem (f : cform) (l : list cform) : bool := existsb (fun g => if cform_eq_dec f g then true else false) l.
+Definition all_shapes_row (nf : string * list form) : bool :=
+  let c := contract_of all_contracts (fst nf) in
+  let fs := forms_of_contract c (senv_of forms_b0) in
+  let ds := map (canon forms_ext) (snd nf) in
+  negb (has_delegates (fst nf)) && forallb nf_ok c &&
+  forallb (fun f => cform_mem f ds) fs && forallb (fun f => cform_mem f fs) ds.
+(* delegating callables: acceptance = own symbolic forms /\ every delegate's symbolic forms on the WIRED arguments *)
+Definition delegates_list (name : string) : list delegate := match assoc delegation name with Some ds => ds | None => [] end.
+Definition deleg_forms_ok (ds : list delegate) (args : aenv) : bool :=
+  forallb (fun d => in_cforms [] (forms_of_contract (contract_of all_contracts (callee d)) []) (wire (wiring d) args)) ds.
+Definition delegating_row (name : string) : bool :=
+  has_delegates name && forallb nf_ok (contract_of all_contracts name) &&
+  forallb (fun d => forallb nf_ok (contract_of all_contracts (callee d))) (delegates_list name).
+Definition all_shapes_via_delegates : list string := filter delegating_row (map fst documented_forms).
+Definition all_shapes_covered : list string := map fst (filter all_shapes_row documented_forms).
+Definition all_shapes_not_covered : list string := map fst (filter (fun nf => negb (all_shapes_row nf)) documented_forms).
